@@ -12,6 +12,26 @@ PRELUDE = ("Require Import DTS.Model.Sections DTS.Model.VarStokes.\n"
            "Definition ok (xs : list Q) (secs : list (nat * list stretch)) (impl : list nat) : Z := if eqb_natl (stretch_order xs secs) impl then 0 else 1.\n")
 
 
+def reference_linear(y, secs_idx, nbin):
+    """independent re-computation of what variance_stokes_linear documents: residuals of the best rank-1 fit per stretch, sorted by intensity,
+    cut into the largest number of equal bins <= nbin that divides the number of residuals, bin variance regressed on bin mean"""
+    res, sts = [], []
+    for a, b in secs_idx:
+        d = y[a:b + 1]
+        u, sv, vt = np.linalg.svd(d, full_matrices=False)
+        res.append((sv[0] * np.outer(u[:, 0], vt[0]) - d).ravel())
+        sts.append(d.ravel())
+    res, sts = np.concatenate(res), np.concatenate(sts)
+    nb = nbin
+    while sts.size % nb:
+        nb -= 1
+    o = np.argsort(sts)
+    m = sts[o].reshape((nb, -1)).mean(axis=1)
+    v = res[o].reshape((nb, -1)).var(axis=1)
+    slope, offset = np.linalg.lstsq(np.hstack((m[:, None], np.ones((nb, 1)))), v, rcond=None)[0]
+    return float(slope), float(offset)
+
+
 def planted(rng, nx, nt, secs_idx, noisy, s, model="constant"):
     """st(x,t) of the estimator's model form; noise only in the stretch `noisy`; returns ds-like pieces"""
     x = np.arange(nx) * 0.5
@@ -19,6 +39,9 @@ def planted(rng, nx, nt, secs_idx, noisy, s, model="constant"):
         st = np.outer(4000.0 * np.exp(-0.002 * x) * (1 + 0.1 * np.sin(x)), 1 + 0.05 * rng.normal(size=nt))
     else:
         st = 4000.0 * np.exp(-0.003 * x)[:, None] * (1 + 0.05 * rng.normal(size=nt))[None, :]
+    # every stretch has its own time series (e.g. a connector between two stretches whose loss drifts): the estimators' model holds per stretch, not per bath
+    for (a_, b_) in secs_idx:
+        st[a_:b_ + 1] *= (1 + 0.05 * rng.normal(size=nt))[None, :]
     noise = np.zeros_like(st)
     a, b = secs_idx[noisy]
     noise[a:b + 1] = rng.normal(0, s, (b - a + 1, nt))
@@ -93,6 +116,9 @@ def run_case(ctx, p, exprs, meta):
                 sig_v = float((p["a"] * stv.mean() + p["b"]) * np.sqrt(2.0 / (nres / nb_eff)))
                 sig_slope = sig_v / (np.sqrt(nb_eff) * max(float(np.std(stv)), 1e-9))
                 tol_s, tol_o = 6 * sig_slope + 0.05 * p["a"], 6 * sig_slope * float(stv.mean()) + 6 * sig_v / np.sqrt(nb_eff) + 0.05 * p["b"]
+                rs, ro = reference_linear(st0 + noise, secs_idx, p.get("nbin", 10))
+                if not (abs(float(out[0]) - rs) <= 1e-4 * abs(rs) + 1e-9 and abs(float(out[1]) - ro) <= 1e-4 * abs(ro) + 1e-4 * abs(rs) * float(stv.mean())):
+                    ctx.violation(f"linear-differs-from-reference:shared={int(shared)}", f"slope/offset {float(out[0])}, {float(out[1])}; independent re-computation of the documented procedure {rs}, {ro}", rec)
                 if not (abs(float(out[0]) - p["a"]) < tol_s and abs(float(out[1]) - p["b"]) < tol_o):
                     ctx.violation(f"linear-slope-offset-not-recovered:shared={int(shared)}", f"planted var = {p['a']}*st + {p['b']}; estimated slope {float(out[0])}, offset {float(out[1])}", rec)
                 continue
@@ -158,8 +184,8 @@ def gen(ctx):
         cuts = np.sort(rng.choice(np.arange(2, nx - 2), size=5, replace=False))
         stretches = [(int(cuts[0]), int(cuts[1])), (int(cuts[2]), int(cuts[3])), (int(cuts[4]), int(nx - 1))]
         stretches = [s for s in stretches if s[1] - s[0] >= 3][:3]
-        if len(stretches) < 2:
-            continue
+        if len(stretches) < 2:   # (fixed fallback layout instead of dropping the round: the planted linear cases below belong to the round)
+            stretches = [(2, 8), (12, nx - 2)]
         if k % 2 == 1:  # clearly unequal lengths: one short stretch next to a long one
             nx = int(rng.integers(60, 90))
             stretches = [(3, 7), (12, nx - 3)] if k % 4 == 1 else [(3, nx - 14), (nx - 8, nx - 3)]
@@ -175,7 +201,7 @@ def gen(ctx):
                             "a": float(rng.choice([0.01, 0.02, 0.05])), "b": float(rng.choice([20.0, 40.0])),
                             "nbin": int([10, 7, 20, 11, 40, 13][k % 6])})   # incl. bin counts that do not divide the number of residuals
                 continue
-            out.append({"shared": bool(rng.random() < 0.3), "seed": int(rng.integers(1 << 30)), "nx": nx, "nt": int(rng.integers(6, 10)) if est != "linear" else 30, "s": float(rng.choice([2.0, 10.0, 40.0])),
+            out.append({"shared": bool(k % 2 == 1), "seed": int(rng.integers(1 << 30)), "nx": nx, "nt": int(rng.integers(6, 10)) if est != "linear" else 30, "s": float(rng.choice([2.0, 10.0, 40.0])),
                         "stretches": stretches, "noisy": int(rng.integers(len(stretches))), "estimator": est, "orders": orders,
                         "scale": float(rng.choice([0.01, 7.0, 300.0])) if est != "linear" else None})
     return out
@@ -186,7 +212,7 @@ def run(ctx):
                          "dictionary in ascending and in reversed order: residuals must be finite exactly at the reference cells, large only in the noisy stretch; noise-free estimate "
                          "~ 0; estimate independent of the order (also of the order of the stretches WITHIN one bath); estimate = variance of the returned residuals = an independent pooled-residual "
                          "reference (SVD rank-1 fit / weighted log-linear fit per stretch, 1e-5), with equal and with very unequal stretch lengths; var(k st) = k^2 var(st); variance_stokes_linear on a planted "
-                         "var = a st + b (slope and offset within 6 standard errors of the binned regression); the concatenation order of the constant estimator compared with Model/VarStokes.v in Coq")
+                         "var = a st + b (slope and offset equal to an independent re-computation of the documented binning procedure at 1e-4, and within 6 standard errors of the planted values); the concatenation order of the constant estimator compared with Model/VarStokes.v in Coq")
     ctx.trusted += ["harness vlib/props/c10.py", "scipy Powell and LSQR are judged, not modelled"]
     ctx.assumptions += ["convergence to s2 (1 - p/n) and slope/offset recovery are sampling support (thorough tier), not theorems", "noise-free ~ 0 is judged relative to the squared mean intensity (1e-6)"]
     exprs, meta = [], []
